@@ -112,6 +112,12 @@ def run(case, ctx):
                 LOG.n("c11.tokenised")
                 hold.append(tok.detokenise(toks))
                 hold.append(tok.detokenise(toks2))
+                # the same notes as plain sequences without any signature message: the tokeniser's default signature is in
+                # force and no signature token opens the stream (default versus the same value passed explicitly)
+                plain = [gen.build_seq({"notes": t["notes"], "extra": [], "pad": -(-max(1, gen.end_of(t)) // 96) * 96}) for t in pc["tracks"]]
+                toks3 = tok.tokenise([q.copy() for q in plain])
+                LOG.n("c11.tokenised_without_signature")
+                hold += [plain, tok.detokenise(toks3), tok.get_info(toks3)]
             except (TokenisationException, KeyError, IndexError, ValueError) as e:
                 LOG.n(f"c11.observed.tokeniser_raises.{type(e).__name__}")
         elif scen == "short_bar":
